@@ -1,5 +1,5 @@
 (* C07 -- a short, long or failing entity stream never yields a complete-looking body. *)
-From HS Require Import Lib.Base Model.Body Proofs.BodyP Proofs.BodyRun.
+From HS Require Import Lib.Base Model.Body Proofs.BodyP Proofs.BodyRun Proofs.MultipartComplete.
 
 (* If the body for a full or single-range response reports a clean end without having reported
    an error first, then the entity's stream delivered exactly the announced number of bytes and
@@ -29,6 +29,39 @@ Theorem c07_multipart_part_error : forall f streams m x x' e, m_cur m = Some x -
   exists m', mp_poll (S f) streams m = Ok (m', PErr e) /\ m_rem m' = 0 /\ m_cur m' = None /\ m_state m' = mp_end_state m'.
 Proof. exact mp_forwards_part_error. Qed.
 
+(* The same for a multipart body, whatever the part streams do: a clean end without a reported
+   error means that every part's stream delivered exactly the length of its range and never
+   failed, and that the ranges were read in order, each exactly once. Contrapositive: when any
+   part -- the first, a middle one, the last -- ends early, runs long or fails at any chunk, the
+   body reports an error; the closing delimiter and a clean end never follow. *)
+Theorem c07_multipart_clean_end_means_complete : forall n streams m rs bf,
+  MInv m -> m_state m = 0%nat -> m_cur m = None -> m_calls m = [] ->
+  run n streams (BMulti m) = Ok (rs, bf) -> existsb is_perr rs = false -> existsb is_pend rs = true ->
+  (forall j a e, nth_error (m_ranges m) j = Some (a, e) ->
+     stream_total (stream_of streams j) = e - a /\ existsb ev_is_err (stream_of streams j) = false) /\
+  exists m', bf = BMulti m' /\ rev (m_calls m') = m_ranges m.
+Proof. exact multipart_clean_end_means_complete. Qed.
+
+(* the hypotheses are satisfiable (honest parts: clean end), and a part one byte short is an error *)
+Definition c07_ex_m : mp :=
+  {| m_cur := None; m_state := 0; m_ph := [[7]; [8]]; m_ranges := [(0, 2); (3, 5)];
+     m_rem := 1 + 2 + 1 + 2 + TRAILER_LEN; m_calls := [] |}.
+Example c07_multipart_instance_inv : MInv c07_ex_m.
+Proof.
+  split; [reflexivity|]. split; [repeat constructor; cbn; lia|].
+  apply (MS_header _ 0); try reflexivity. cbn; lia.
+Qed.
+Example c07_multipart_instance_ok :
+  match run 8 [[EvData [0; 1]]; [EvData [3]; EvData [4]]] (BMulti c07_ex_m) with
+  | Ok (rs, _) => (existsb is_perr rs, existsb is_pend rs) = (false, true)
+  | Panic _ => False end.
+Proof. vm_compute. reflexivity. Qed.
+Example c07_multipart_instance_short :
+  match run 8 [[EvData [0; 1]]; [EvData [3]]] (BMulti c07_ex_m) with
+  | Ok (rs, _) => rs = [PData [7]; PData [0; 1]; PData [8]; PData [3]; PErr (ErrShort 1); PEnd; PEnd; PEnd]
+  | Panic _ => False end.
+Proof. vm_compute. reflexivity. Qed.
+
 (* nothing beyond the announced length is ever passed on, for any body and any stream *)
 Theorem c07_never_beyond_announced : forall n streams b rs bf, run n streams b = Ok (rs, bf) ->
   delivered rs + body_hint bf <= body_hint b /\
@@ -47,3 +80,4 @@ Print Assumptions c07_too_long_is_error.
 Print Assumptions c07_data_within_announced.
 Print Assumptions c07_multipart_part_error.
 Print Assumptions c07_never_beyond_announced.
+Print Assumptions c07_multipart_clean_end_means_complete.
